@@ -10,7 +10,7 @@ T_2SHEET = "traits::adjustment_coordinate_with_2sheet::AdjustmentCoordinateWith2
 
 
 def STOP(fn):
-    return fn.endswith("index_from_coordinate")
+    return C09.STOP(fn)
 
 
 def helper_roles(fb):
@@ -344,7 +344,7 @@ def rule_parse_wiring(chk, fb):
     )
     want = {("ColumnReference", "set_num"): "0", ("ColumnReference", "set_is_lock"): "2", ("RowReference", "set_num"): "1", ("RowReference", "set_is_lock"): "3"}
     for d, b in sorted(fb.mir.items()):
-        if not any(t.get("fn", "").endswith("helper::coordinate::index_from_coordinate") or t.get("fn", "").endswith("::index_from_coordinate") for _, t in fb.calls_in(b)):
+        if not any(C09.is_parser(fb, t.get("fn", "")) for _, t in fb.calls_in(b)):
             continue
         fl = Flow(fb, b)
         n = {}
@@ -355,7 +355,7 @@ def rule_parse_wiring(chk, fb):
             if key not in want or len(t["args"]) < 2:
                 continue
             at = fl.atoms(t["args"][1])
-            if not any(a[0] == "call" and a[1].endswith("index_from_coordinate") for a in at):
+            if not any(a[0] == "call" and C09.is_parser(fb, a[1]) for a in at):
                 continue
             comps = sorted(a[2] for a in at if a[0] == "field" and a[1] == "tuple" and a[2] in ("0", "1", "2", "3"))
             i = n.get(key, 0)
@@ -505,7 +505,9 @@ def rule_all_kinds(chk, fb):
 
 
 def run(chk, fb, tier):
+    C09._FB[:] = [fb]
     rule_kernels(chk, fb)
+    C09.rule_whole_reference(chk, fb, list(formula_kernels(fb)[0]), "C08.h", floor=2)
     rule_sheet_match(chk, fb)
     rule_chain(chk, fb)
     # C08.e every holder of references is visited (fan-out of the sheet-aware family)
